@@ -145,3 +145,21 @@ func init() {
 		Bounds: map[string]interface{}{"see": "per-harness bounds in harness_runs and DESIGN.md section 8 C01"},
 	})
 }
+
+func init() {
+	register(&CheckDef{ID: "C07", Level: "model_checking", Timeout: [2]int{300, 1200},
+		Assumptions: []string{"input stream model zzMemReader; bufio interpreted; sync.Pool.Get returns New(); zerolog at the default level; time.Date uninterpreted (equal components give equal instants)"},
+		Bounds: map[string]interface{}{"entry_lemma": "all 2^96 twelve-byte IFD entries x all directory types x all base offsets (no bound)", "paired_decodes": "one-entry IFD0 skeletons: SHORT/LONG/ASCII embedded, ASCII out of line (7 chars), DateTime, and every defined type x count <= 8 for byte-typed embedded values of 8 tag ids"},
+	})
+}
+
+func init() {
+	register(&CheckDef{ID: "C03", Level: "model_checking", Timeout: [2]int{400, 1500},
+		Assumptions: []string{
+			"time.Date / time.FixedZone are uninterpreted: equality of instants/zones reduces to equality of the integer components handed over",
+			"float division/conversion are uninterpreted functions of bit patterns (fp=uf): 'float32(n)/float32(d)' means the same operations on the same operands",
+			"input stream model zzMemReader; bufio interpreted; sync.Pool.Get returns New()",
+		},
+		Bounds: map[string]interface{}{"skeletons": "IFD0 scalars; IFD0 strings (1..5 chars); three timestamps + 3-digit sub-seconds + zone; ExifIFD numbers (10 fields + LensSpecification); ExifIFD strings (2,4,7 chars); GPS (8 tags); each under II and MM", "values": "every in-range value (full-width solver variables); text = printable non-blank ASCII", "outside": "Make/Model alias normalisation, ApertureValue (math.Pow), more than 11 entries per directory, padding/permuted value blocks"},
+	})
+}
